@@ -209,6 +209,13 @@ Definition check17 (c : pxcase) : list nat :=
       ++ (if spec_isolation f steps observed then [] else [4%nat])
       ++ (if spec_removal f steps observed then [] else [5%nat])
       ++ (if spec_shutdown steps observed then [] else [6%nat])
+  | CProxyLoose pname buf icp steps observed =>
+      let f := icp_of icp in
+      (if spec_source f steps observed then [] else [2%nat])
+      ++ (if spec_alive steps observed then [] else [3%nat])
+      ++ (if spec_isolation f steps observed then [] else [4%nat])
+      ++ (if spec_removal f steps observed then [] else [5%nat])
+      ++ (if spec_shutdown steps observed then [] else [6%nat])
   | CProxyE2E results =>
       if forallb (fun p => fst p =? snd p) results then [] else [7%nat]
   | CProxyFree pname buf icp names sent got drops clean =>
